@@ -14,6 +14,9 @@
 //!   bip <s>                      => true|false|panic   (undirected graphs only)
 //!   toposort fresh|reuse         => ok a,b,c | err x
 //!   cond <0|1> eo=<edge ids>     => <members;..>|<s:t:w,..>   eo = abstract edge id per concrete index
+//!   space new|default|foreign <m> => -                 the DfsSpace the following `reuse` lines go through:
+//!                                                      DfsSpace::new(g) / DfsSpace::default() / one made for and
+//!                                                      used on ANOTHER graph with m nodes (dirty, other length)
 use crate::common::*;
 use crate::graphs::*;
 use crate::rng::Rng;
@@ -109,6 +112,7 @@ where
 {
     let mut rng2 = rng.clone();
     rng.next();
+    ctx.line("space new 0", "-");
     let r = catch(|| {
         let mut space = DfsSpace::new(g);
         haspath_reuse(g, n, &mut rng2, conc, &mut space)
@@ -129,7 +133,7 @@ where
 
 /// kosaraju_scc, toposort; one DfsSpace (possibly dirty, possibly made for another graph of the same
 /// type) shared by toposort and has_path_connecting calls
-fn run_directed<G>(ctx: &mut Ctx, rng: &mut Rng, g: G, n: usize, abs: &dyn Fn(G::NodeId) -> usize, conc: &dyn Fn(usize) -> G::NodeId, space: Option<DfsSpace<G::NodeId, G::Map>>)
+fn run_directed<G>(ctx: &mut Ctx, rng: &mut Rng, g: G, n: usize, abs: &dyn Fn(G::NodeId) -> usize, conc: &dyn Fn(usize) -> G::NodeId, space: Option<(DfsSpace<G::NodeId, G::Map>, usize)>)
 where
     G: IntoNeighborsDirected + IntoNodeIdentifiers + Visitable + Copy,
     G::NodeId: PartialEq + Copy,
@@ -138,8 +142,8 @@ where
     ctx.line("kosaraju", &p(catch(|| sccs_str(&kosaraju_scc(g), abs))));
     ctx.line("toposort fresh", &p(catch(|| topo_str::<G>(toposort(g, None), abs))));
     let mut space = match space {
-        Some(s) => s,
-        None => if rng.chance(50) { DfsSpace::new(g) } else { DfsSpace::default() },
+        Some((s, m)) => { ctx.line(&format!("space foreign {}", m), "-"); s }
+        None => if rng.chance(50) { ctx.line("space new 0", "-"); DfsSpace::new(g) } else { ctx.line("space default 0", "-"); DfsSpace::default() },
     };
     // a panic inside one call must not hide the others: the workspace lives outside the catch
     let r = catch(|| topo_str::<G>(toposort(g, Some(&mut space)), abs));
@@ -205,7 +209,7 @@ macro_rules! with_ty {
 }
 
 /// a workspace made for (and used on) ANOTHER graph of the same type with a different node count
-fn foreign_space<Ty: petgraph::EdgeType, Ix: petgraph::graph::IndexType>(rng: &mut Rng, n: usize) -> Option<DfsSpace<petgraph::graph::NodeIndex<Ix>, <petgraph::Graph<usize, i64, Ty, Ix> as Visitable>::Map>> {
+fn foreign_space<Ty: petgraph::EdgeType, Ix: petgraph::graph::IndexType>(rng: &mut Rng, n: usize) -> Option<(DfsSpace<petgraph::graph::NodeIndex<Ix>, <petgraph::Graph<usize, i64, Ty, Ix> as Visitable>::Map>, usize)> {
     if rng.chance(40) {
         return None;
     }
@@ -220,7 +224,30 @@ fn foreign_space<Ty: petgraph::EdgeType, Ix: petgraph::graph::IndexType>(rng: &m
         has_path_connecting(&other, ids[0], ids[m - 1], Some(&mut sp));
         let _ = toposort(&other, Some(&mut sp));
     }
-    Some(sp)
+    Some((sp, m))
+}
+
+/// the same for StableGraph (vacancies: the other graph has removed nodes too, so its map is longer
+/// than its node count)
+fn foreign_space_stable<Ty: petgraph::EdgeType>(rng: &mut Rng, n: usize) -> Option<(DfsSpace<petgraph::graph::NodeIndex<u32>, <petgraph::stable_graph::StableGraph<usize, i64, Ty, u32> as Visitable>::Map>, usize)> {
+    if rng.chance(50) {
+        return None;
+    }
+    let m = if rng.chance(50) { n + 1 + rng.below(40) } else { rng.below(n + 1) };
+    let mut other = petgraph::stable_graph::StableGraph::<usize, i64, Ty, u32>::with_capacity(0, 0);
+    let ids: Vec<_> = (0..m).map(|i| other.add_node(i)).collect();
+    for i in 1..m {
+        other.add_edge(ids[i - 1], ids[i], 1);
+    }
+    if m > 2 && rng.chance(50) {
+        other.remove_node(ids[m / 2]);
+    }
+    let mut sp = DfsSpace::new(&other);
+    if m > 0 {
+        has_path_connecting(&other, ids[0], ids[m - 1], Some(&mut sp));
+        let _ = toposort(&other, Some(&mut sp));
+    }
+    Some((sp, m))
 }
 
 fn case_graph<Ty: petgraph::EdgeType, Ix: petgraph::graph::IndexType>(ctx: &mut Ctx, rng: &mut Rng, ag: &AG, node_order: &[usize], edge_order: &[usize], inv: &[usize], name: &str) {
@@ -265,7 +292,8 @@ fn case_ty<Ty: petgraph::EdgeType>(ctx: &mut Ctx, rng: &mut Rng, ag: &AG) {
             let conc = |a: usize| cidx[a];
             ctx.line(&format!("{} enc=stable", view_line(ag, g, &abs, &|er, _| e.eid[EdgeRef::id(&er).index()])), "ok");
             run_basic(ctx, rng, g, n, ag.directed, &abs, &conc);
-            run_directed(ctx, rng, g, n, &abs, &conc, None);
+            let sp = foreign_space_stable::<Ty>(rng, n);
+            run_directed(ctx, rng, g, n, &abs, &conc, sp);
             run_cycu(ctx, g, &abs);
         }
         3 => {
